@@ -1,8 +1,6 @@
 package vuego
 
 import (
-	"strings"
-
 	"golang.org/x/net/html"
 
 	"github.com/titpetric/vuego/internal/helpers"
@@ -36,46 +34,10 @@ func (v *Vue) evalVShow(ctx VueContext, n *html.Node) error {
 }
 
 // setStyleProperty adds or updates a CSS property in the style attribute.
-// Preserves existing style properties.
+// Preserves existing style properties and their order.
 func (v *Vue) setStyleProperty(n *html.Node, property, value string) {
 	styleVal := helpers.GetAttr(n, "style")
 
-	// Parse existing styles
-	styleMap := parseStyleString(styleVal)
-	styleMap[property] = value
-
-	// Rebuild style string
-	var styles []string
-	for k, v := range styleMap {
-		styles = append(styles, k+":"+v+";")
-	}
-	helpers.AppendAttr(n, "style", strings.Join(styles, ""))
-}
-
-// parseStyleString parses a CSS style string into a map.
-// Handles styles like "color: red; display: none;"
-func parseStyleString(style string) map[string]string {
-	result := make(map[string]string)
-	if style == "" {
-		return result
-	}
-
-	// Split by semicolon to get individual properties
-	parts := strings.Split(style, ";")
-	for _, part := range parts {
-		part = strings.TrimSpace(part)
-		if part == "" {
-			continue
-		}
-
-		// Split by colon to get key-value pair
-		kv := strings.SplitN(part, ":", 2)
-		if len(kv) == 2 {
-			key := strings.TrimSpace(kv[0])
-			val := strings.TrimSpace(kv[1])
-			result[key] = val
-		}
-	}
-
-	return result
+	decls := setStyleDecl(parseStyleDecls(styleVal), property, value)
+	helpers.AppendAttr(n, "style", styleDeclsString(decls))
 }
